@@ -205,4 +205,21 @@ public class Prim {
     String s = str(v); int i = iv(a), j = iv(b); if (j < i) return sv(""); return sv(s.substring(i-1, j));
   }
   public static Value StrCat(Value a, Value b) { return sv(str(a) + str(b)); }
+
+  // ---------- appended for X04: HMAC-SHA-512 and the raw AES block cipher (ECB, no padding)
+  public static Value HmacSha512(Value k, Value v) throws Exception {
+    byte[] kb = toBytes(k);
+    Mac m = Mac.getInstance("HmacSHA512");
+    // the JDK refuses an empty key; HMAC pads the key with zeros, so one zero byte is the same key (RFC 2104)
+    m.init(new SecretKeySpec(kb.length == 0 ? new byte[1] : kb, "HmacSHA512")); return fromBytes(m.doFinal(toBytes(v)));
+  }
+  private static Value aesEcb(int mode, Value key, Value data) throws Exception {
+    Cipher c = Cipher.getInstance("AES/ECB/NoPadding");
+    c.init(mode, new SecretKeySpec(toBytes(key), "AES"));
+    byte[] d = toBytes(data);
+    if (d.length == 0) return fromBytes(d);
+    return fromBytes(c.doFinal(d));
+  }
+  public static Value AesEcbEnc(Value key, Value data) throws Exception { return aesEcb(Cipher.ENCRYPT_MODE, key, data); }
+  public static Value AesEcbDec(Value key, Value data) throws Exception { return aesEcb(Cipher.DECRYPT_MODE, key, data); }
 }
